@@ -1,5 +1,5 @@
 # C12: flush actions make prior input decodable; mid-stream option changes are safe (E3 action histories)
-import json, lzma, os, re, shutil, subprocess, tempfile, concurrent.futures
+import hashlib, json, lzma, os, re, shutil, subprocess, tempfile, concurrent.futures
 import vlib
 PID = "C12"
 SRC = ["harness/c12_flush.c", "ref/ref_xz.c", "ref/ref_lzma.c", "ref/ref_check.c"]
@@ -14,6 +14,7 @@ def exe():
 # of C17 gives exactly that answer at a chosen call (fault kinds eagain + tmo) without any waiting, so every read of standard
 # input is tried as the place where the writer pauses (thorough: every pair of places).
 FT_INPUT = bytes((i * 7 + (i >> 5) * 13) & 0xFF if (i >> 9) & 1 else b"flush timeout test line\n"[i % 24] for i in range(3 * 8192 + 777))
+FT_DINPUT = b"".join(hashlib.sha256(b"%d" % i).digest() for i in range(700))	# incompressible: its .xz takes several reads, so a stall can fall inside the stream
 FT_CONFIGS = [["-6"], ["-0", "--block-size=8192"], ["-1", "--block-size=4096"], ["-0", "--block-list=8192,100,0"], ["--delta=dist=2", "--lzma2=preset=0"], ["-3", "-C", "sha256"]]
 
 
@@ -68,7 +69,7 @@ def cli_flush_part(ck, tier):
                 for i, k1 in enumerate(reads):
                     for k2 in reads[i + 1:]:
                         jobs.append(("c", argv, [k1, k2 + 1]))      # the poll inserted after k1 shifts the later ordinals by one
-        comp = lzma.compress(FT_INPUT, preset=0)
+        comp = lzma.compress(FT_DINPUT, preset=0)
         for argv in (["--flush-timeout=100000000", "-dc"], ["-dc", "--flush-timeout=100000000"], ["--flush-timeout=100000000", "-tv"]):
             rc, err, out, calls = ft_run(xz, shim, scratch, argv, comp, "")
             for k in [c[0] for c in calls if c[1] == "read" and c[2] == 0]:
@@ -88,7 +89,7 @@ def cli_flush_part(ck, tier):
             if rc != 0:
                 ck.fail(f"flush-cli:exit-status:{kind}", f"{what}: exit status {rc}: {err.strip()[:200]}", rj); continue
             if kind == "d":
-                if "-tv" not in argv and out != FT_INPUT:
+                if "-tv" not in argv and out != FT_DINPUT:
                     ck.fail("flush-cli:decompress-output", f"{what}: wrong decompressed data ({len(out)} bytes)", rj)
                 continue
             fmt_lzma = "lzma" in argv
